@@ -102,6 +102,11 @@ func trimStack(st string) string {
 }
 
 // ChildMain executes cases [from,to) of a monitor and writes the result files.
+var heartbeat atomic.Int64
+
+// Beat tells the hang watchdog that the current case is alive (for cases that legitimately run for minutes).
+func Beat() { heartbeat.Add(1) }
+
 func ChildMain(prop, tier string, seed int64, from, to int, prefix string) int {
 	m := Lookup(prop)
 	if m == nil {
@@ -123,11 +128,11 @@ func ChildMain(prop, tier string, seed int64, from, to int, prefix string) int {
 	}
 	progress.Store(int64(from))
 	go func() {
-		last := progress.Load()
+		last := progress.Load() + heartbeat.Load()<<32
 		lastChange := time.Now()
 		for {
 			time.Sleep(2 * time.Second)
-			p := progress.Load()
+			p := progress.Load() + heartbeat.Load()<<32 // (a long case shows that it is alive through Beat)
 			if p != last {
 				last, lastChange = p, time.Now()
 				continue
